@@ -833,6 +833,13 @@ def mapped_member_scope_rule(cx, rep, rid):
             for x in hwalk(e):
                 if x["k"] == "Field" and x.get("name") == "type_ann":
                     return True
+                # the annotation fetched by a helper (b63: `self.mapped_type_value_annotation(k, &anchor)?`): a local
+                # function that does not itself convert (no Runtype result) and reads the field
+                if x["k"] in ("Call", "MethodCall") and depth < 4:
+                    tg_ = F._callee_gid(f.crate, (x.get("callee") if x["k"] == "Call" else (x.get("resolved") or x.get("callee"))) or "")
+                    tf_ = F.fns.get(tg_)
+                    if tf_ is not None and tg_ in F.hir and "Runtype" not in (tf_.output or "") and any(y["k"] == "Field" and y.get("name") == "type_ann" for y in hwalk(F.hir[tg_]["body"])):
+                        return True
                 if x["k"] == "Path" and x.get("res") == "local" and x.get("lid") in lets and depth < 4 and from_type_ann(lets[x["lid"]], depth + 1):
                     return True
             return False
